@@ -49,8 +49,20 @@ Definition slice_take_last (sl : slice) : slice * option Z :=
   if 0 <? slen sl then (mkS (soff sl) (slen sl - 1), Some (soff sl + slen sl - 1))
   else (sl, None).
 
-Definition slice_take_first_mut := slice_take_first.
-Definition slice_take_last_mut := slice_take_last.
+(* slice_take_first_mut / slice_take_last_mut (iter.rs:189, 215; stable version):
+     let (item, rest) = core::mem::take(slice).split_first_mut()?;
+     *slice = rest;
+     Some(item)
+   core::mem::take leaves `&mut []` (Default for &mut [T]) in *slice before the
+   split is attempted, so when the slice is empty (`?` returns None) the place is
+   left holding empty_slice, not the old (empty) slice with its old offset *)
+Definition slice_take_first_mut (sl : slice) : slice * option Z :=
+  if 0 <? slen sl then (mkS (soff sl + 1) (slen sl - 1), Some (soff sl))
+  else (empty_slice, None).
+
+Definition slice_take_last_mut (sl : slice) : slice * option Z :=
+  if 0 <? slen sl then (mkS (soff sl) (slen sl - 1), Some (soff sl + slen sl - 1))
+  else (empty_slice, None).
 
 (* ---- Iter (iter.rs:218) --------------------------------------------- *)
 
@@ -119,7 +131,7 @@ Definition iter_clone (it : iter) : iter := mkI (it_right it) (it_left it).
 (* impl Default for Iter (iter.rs:289): Self::empty() *)
 Definition iter_default : iter := iter_empty.
 
-(* ---- IterMut (iter.rs:353): the same text with &mut ------------------ *)
+(* ---- IterMut (iter.rs:359) ------------------------------------------- *)
 
 Definition iter_mut_new : M iter :=
   '(r, l) <- as_mut_slices;; ret (mkI r l).
@@ -137,8 +149,29 @@ Definition iter_mut_over_range (sb eb : bound) : M iter :=
 Definition iter_mut_empty : iter := mkI empty_slice empty_slice.
 Definition iter_mut_default : iter := iter_mut_empty.
 
-Definition iter_mut_next := iter_next.
-Definition iter_mut_next_back := iter_next_back.
+(* <IterMut as Iterator>::next (iter.rs:433) and
+   <IterMut as DoubleEndedIterator>::next_back (iter.rs:460): the text of Iter's, with
+   slice_take_first_mut / slice_take_last_mut, which work on the fields in place: a
+   field whose slice was found empty has been replaced by `&mut []` *)
+Definition iter_mut_next (it : iter) : iter * option Z :=
+  match slice_take_first_mut (it_right it) with
+  | (r, Some p) => (mkI r (it_left it), Some p)
+  | (r, None) =>
+    match slice_take_first_mut (it_left it) with
+    | (l, Some p) => (mkI r l, Some p)
+    | (l, None) => (mkI r l, None)
+    end
+  end.
+
+Definition iter_mut_next_back (it : iter) : iter * option Z :=
+  match slice_take_last_mut (it_left it) with
+  | (l, Some p) => (mkI (it_right it) l, Some p)
+  | (l, None) =>
+    match slice_take_last_mut (it_right it) with
+    | (r, Some p) => (mkI r l, Some p)
+    | (r, None) => (mkI r l, None)
+    end
+  end.
 Definition iter_mut_len := iter_len.
 
 (* ---- IntoIter (iter.rs:11): the state is the wrapped buffer ---------- *)
